@@ -591,6 +591,93 @@ def _scalarise_tables(node):
     rec(node)
 
 
+def _scalarise_records(ctx, node):
+    """a local record (NamedTuple / dataclass creation, assigned once, perhaps handed on through `x = __rN`) that
+    is only ever read field by field is a handful of scalars: REC.field -> REC__field"""
+    from .symx import record_fields
+    classes = ctx.model.classes
+    asg = {}
+    for s in ast.walk(node):
+        if isinstance(s, ast.Assign):
+            for t in s.targets:
+                for x in ast.walk(t):
+                    if isinstance(x, ast.Name):
+                        asg.setdefault(x.id, []).append(s)
+        elif isinstance(s, (ast.AugAssign, ast.AnnAssign, ast.For, ast.NamedExpr, ast.With, ast.comprehension)):
+            tg = s.target if hasattr(s, 'target') else None
+            for x in (ast.walk(tg) if tg is not None else ()):
+                if isinstance(x, ast.Name):
+                    asg.setdefault(x.id, []).append(None)
+    recs = {}
+    for nm, sts in asg.items():
+        if len(sts) == 1 and sts[0] is not None and len(sts[0].targets) == 1 and isinstance(sts[0].targets[0], ast.Name):
+            v = sts[0].value
+            if isinstance(v, ast.Call) and isinstance(v.func, ast.Name) and v.func.id in classes:
+                flds = record_fields(classes[v.func.id], v)
+                if flds:
+                    recs[nm] = (sts[0], flds)
+    if not recs:
+        return
+    alias = {nm: nm for nm in recs}
+    for nm, sts in asg.items():
+        if nm not in recs and len(sts) == 1 and sts[0] is not None and len(sts[0].targets) == 1 and \
+           isinstance(sts[0].targets[0], ast.Name) and isinstance(sts[0].value, ast.Name) and sts[0].value.id in recs:
+            alias[nm] = sts[0].value.id
+    parents = {}
+    for x in ast.walk(node):
+        for ch in ast.iter_child_nodes(x):
+            parents[id(ch)] = x
+    bad = set()
+    for n in ast.walk(node):
+        if isinstance(n, ast.Name) and n.id in alias:
+            p = parents.get(id(n))
+            if isinstance(p, ast.Assign) and (p.targets[0] is n or (p.value is n and isinstance(p.targets[0], ast.Name)
+                                                                    and alias.get(p.targets[0].id) == n.id)):
+                continue
+            if isinstance(p, ast.Attribute) and p.value is n and isinstance(p.ctx, ast.Load) and \
+               p.attr in recs[alias[n.id]][1]:
+                continue
+            bad.add(alias[n.id])
+    ok = {nm for nm in alias if alias[nm] not in bad}
+    if not ok:
+        return
+
+    def rec(x):
+        for fld, val in ast.iter_fields(x):
+            if isinstance(val, list):
+                new = []
+                for y in val:
+                    if isinstance(y, ast.Assign) and len(y.targets) == 1 and isinstance(y.targets[0], ast.Name) and \
+                       y.targets[0].id in ok:
+                        nm = y.targets[0].id
+                        if nm in recs and y is recs[nm][0]:
+                            for f_, v_ in recs[nm][1].items():
+                                if direct(v_):
+                                    continue
+                                a = ast.Assign(targets=[ast.Name(id='%s__%s' % (nm, f_), ctx=ast.Store())], value=fix(v_))
+                                new.append(ast.copy_location(a, y))
+                        continue        # `x = __rN`: another name of the same record
+                    new.append(fix(y) if isinstance(y, ast.AST) else y)
+                val[:] = new or ([ast.copy_location(ast.Pass(), x)] if fld in ('body',) and val else new)
+            elif isinstance(val, ast.AST):
+                setattr(x, fld, fix(val))
+
+    def direct(v_):
+        # a field that holds a local bound once: the field is that local
+        return isinstance(v_, ast.Name) and len(asg.get(v_.id, ())) <= 1
+
+    def fix(y):
+        if isinstance(y, ast.Attribute) and isinstance(y.value, ast.Name) and y.value.id in ok:
+            v_ = recs[alias[y.value.id]][1][y.attr]
+            if direct(v_):
+                return ast.copy_location(ast.Name(id=v_.id, ctx=ast.Load()), y)
+            new = ast.Name(id='%s__%s' % (alias[y.value.id], y.attr), ctx=ast.Load())
+            return ast.copy_location(new, y)
+        rec(y)
+        return y
+    rec(node)
+
+
 def _fold_const_getattr(node):
     """getattr(x, 'name') with a literal name (left by spelling out a loop over names) is x.name"""
     def rec(x):
@@ -687,6 +774,7 @@ def flatten(ctx, func, depth=3):
         doc, body = body[:1], body[1:]
     node.body = doc + fl.block(body, [func.qual])
     _scalarise_tables(node)
+    _scalarise_records(ctx, node)
     _propagate_self_aliases(node)
     _fold_const_getattr(node)
     ast.fix_missing_locations(node)
